@@ -12,6 +12,9 @@ import asyncio
 from asyncio import base_events
 
 EXEC_LAT = (0.0, 0.0, 0.0, 0.001, 0.01, 0.25)
+# delay between the instant a pool worker has executed the job (its reads / side effects happen then) and the instant
+# the awaiting task is resumed with the result
+EXEC_DELIVER = (0.0, 0.0, 0.0, 0.0, 0.002, 0.3)
 
 
 class SimDeadlock(Exception):
@@ -94,6 +97,8 @@ class SimLoop(base_events.BaseEventLoop):
             self.ctx.fault("executor_latency")
         state = {"ran": False}
 
+        deliver = EXEC_DELIVER[self.tape.draw(len(EXEC_DELIVER))]
+
         def run():
             if state["ran"] or fut.cancelled():
                 return
@@ -103,9 +108,24 @@ class SimLoop(base_events.BaseEventLoop):
             except BaseException as e:  # noqa
                 if isinstance(e, (SystemExit, KeyboardInterrupt)):
                     raise
-                fut.set_exception(e)
+                outcome = (False, e)
             else:
-                fut.set_result(res)
+                outcome = (True, res)
+
+            def finish():
+                if fut.cancelled():
+                    return
+                if outcome[0]:
+                    fut.set_result(outcome[1])
+                else:
+                    fut.set_exception(outcome[1])
+
+            if deliver:
+                if self.ctx is not None:
+                    self.ctx.fault("executor_result_delivered_late")
+                self.call_later(deliver, finish)
+            else:
+                finish()
 
         def on_done(f):
             # The awaiting task was cancelled before the job completed.  A real pool drops a job that is still queued
